@@ -27,11 +27,26 @@ def extSexp : Ext → Sexp
 def reqSexp (q : Proxy.Req) : List Sexp :=
   [list (q.ids.map nameSexp), list (q.slab.map tripleSexp), list (q.selection.map nameSexp)]
 
+def natsSexp (l : List Nat) : Sexp := list (l.map fun n => atom (toString n))
+
+def dataSexp : Data → Sexp
+  | .proxy r => list [atom "p", atom (toString r)]
+  | .vals axes =>
+    -- an empty array holds no values: its positions cannot be observed (canonical form: all axes empty)
+    let empty := axes.any fun a => a.2.isEmpty
+    list [atom "v", natsSexp ((axes.filter fun a => !a.1).map fun a => a.2.length),
+      list (axes.map fun a => natsSexp (if empty then [] else a.2))]
+
 def obsSexp : Option Obs → Sexp
   | none => atom "dangling"
   | some o => match o.req with
     | some q => list ([atom "seq"] ++ reqSexp q ++ [list (o.columns.map nameSexp), sessSexp o.session])
-    | none => list ([atom "o"] ++ o.ident.map nameSexp ++ [sessSexp o.session])
+    | none =>
+      if o.kind = 1 then list ([atom "arr"] ++ o.ident.map nameSexp ++ [list (o.aslice.map idxToSexp), sessSexp o.session])
+      else if o.kind = 2 then
+        list ([atom "var"] ++ o.ident.map nameSexp ++ [match o.data with | some d => dataSexp d | none => atom "none"])
+      else if o.kind = 3 then list [atom "grid", natsSexp o.kids, atom (if o.flag then "1" else "0")]
+      else list ([atom "o"] ++ o.ident.map nameSexp ++ [sessSexp o.session])
 
 def allObs (h : Heap) : Sexp := list ((List.range h.objs.length).map fun r => obsSexp (obs h r))
 
@@ -51,10 +66,20 @@ def evOf? : Sexp → Option Ev
   | list [atom "fattr", r, n] => do pure (Ev.fattr (← asNat? r) (← nameOf? n))
   | list [atom "fcall", r, n] => do pure (Ev.fcall (← asNat? r) (← nameOf? n))
   | list [atom "rget", r, d] => do pure (Ev.rget (← asNat? r) ((← asNat? d) != 0))
+  | list [atom "vget", r, list ix] => do pure (Ev.vget (← asNat? r) (← ix.mapM sexpToIdx?))
+  | list [atom "ggrid", r, list ix] => do pure (Ev.ggrid (← asNat? r) (← ix.mapM sexpToIdx?))
   | _ => none
 
 def arrOf? : Sexp → Option (Name × List Nat × Bool)
   | list [n, list sh, d] => do pure (← nameOf? n, ← sh.mapM asNat?, (← asNat? d) != 0)
+  | _ => none
+
+def varOf? : Sexp → Option (Name × Nat)
+  | list [n, r] => do pure (← nameOf? n, ← asNat? r)
+  | _ => none
+
+def gridOf? : Sexp → Option (List Nat × Bool)
+  | list [list ks, og] => do pure (← ks.mapM asNat?, (← asNat? og) != 0)
   | _ => none
 
 def logSexp (l : List (Sess × Proxy.Req)) : Sexp :=
@@ -69,6 +94,14 @@ def handleProxy : List Sexp → Option String
     let old ← asNat? old
     let h := openHeap (← nameOf? b) (← bs.mapM nameOf?) (← sessOf? σ) (← nameOf? n) (← keys.mapM nameOf?)
       (← arrays.mapM arrOf?)
+    let evs ← evs.mapM evOf?
+    let r := runTrace (if old != 0 then stepOld else step) h evs
+    pure (toString (list [list r.1, logSexp r.2.log]))
+  | [atom "px-rung", old, list [atom "open", b, list bs, σ, n, list keys, list arrays], list vars, list grids,
+      list evs] => do
+    let old ← asNat? old
+    let h := openVars (openHeap (← nameOf? b) (← bs.mapM nameOf?) (← sessOf? σ) (← nameOf? n) (← keys.mapM nameOf?)
+      (← arrays.mapM arrOf?)) (← vars.mapM varOf?) (← grids.mapM gridOf?)
     let evs ← evs.mapM evOf?
     let r := runTrace (if old != 0 then stepOld else step) h evs
     pure (toString (list [list r.1, logSexp r.2.log]))
